@@ -43,6 +43,7 @@ RULES
 - Write a demonstration {wt}/MUTANT/demo.py: a small stand-alone script (run as  cd {wt} && PYTHONPATH={wt}/src /venv/bin/python MUTANT/demo.py ) that exits 0 on the ORIGINAL code and exits 1 (printing what went wrong) WITH your change. If the defect depends on the environment, the demo must set that environment itself (os.environ['TZ']=...; time.tzset(); or re-exec itself with PYTHONHASHSEED) so that it is self-contained. Verify both outcomes.
 - Save the change as {wt}/MUTANT/patch.diff (output of  cd {wt} && git diff -- src ), and leave the change applied in the worktree.
 - Write {wt}/MUTANT/NOTE.md: 5-10 lines: what the change is, why it looks innocent, exactly what is needed for it to manifest (history / fault / environment / input), and which clause of the property it breaks.
+- ADDITIONAL CONSTRAINT: every name the demonstration's types refer to (classes, aliases, NewTypes) must be defined before the library first sees a type that mentions it. A mechanism that only shows after a NameError / an unresolved forward reference on a first, premature use ("use before definition") is out of scope - the properties quantify over resolvable types.
 - Python to use: /venv/bin/python (3.12). No network. Do not install anything.
 
 Finish by reporting: the diff, the demo's output on original vs changed code, and the pytest summary line."""
